@@ -247,6 +247,10 @@ def run_config(ctx, cfg: str, nvariants: int, roundtrip: bool, sample_mod: int =
         if r is None:
             continue
         if "harness_exception" in r:
+            lf = core.library_failure(r)
+            if lf is not None:
+                ctx.violation(lf)
+                continue
             raise tlc.MachineryError("replay worker failed: %s\n%s" % (r["harness_exception"], r["tb"]))
         ctx.count(r["n"])
         ctx.traces += 1
